@@ -15,6 +15,13 @@ import z3
 _counter = itertools.count()
 
 
+import time as _time
+
+#: wall-clock budget of one deductive case (all its paths); exceeded => UNDECIDED.  The longest case on the unchanged tree takes ~6 s.
+CASE_BUDGET_S = int(__import__("os").environ.get("VF_CASE_BUDGET_S", "240"))
+CASE_DEADLINE = [None]
+
+
 class EngineUnsupported(BaseException):
     """construct outside the engine's reach: the obligation is UNDECIDED (exit 2), never pass/violation"""
 
@@ -123,6 +130,8 @@ class Ctx:
             return True
         if z3.is_false(cond):
             return False
+        if CASE_DEADLINE[0] is not None and _time.time() > CASE_DEADLINE[0]:
+            raise EngineUnsupported("time budget of the case exhausted (%d s): undecided, not a verdict" % CASE_BUDGET_S)
         key = cond.get_id()
         hit = self.decided.get(key)
         if hit is not None and hit[0].eq(cond):
